@@ -32,6 +32,63 @@ DENY = [
 ]
 
 
+# functions whose result depends on something other than their arguments; searched in the whole monomorphic instance
+# graph (upstream MIR included), so a dependency API that consults the environment behind an innocent name is found
+AMBIENT_SOURCES = [
+    (re.compile(r"^std::time::(SystemTime|Instant)::now$|^chrono::.*::now$|std::sys::.*time::.*::now"), "clock"),
+    (re.compile(r"^chrono::offset::local::"), "host time zone (TZ, /etc/localtime)"),
+    (re.compile(r"^std::env::|^std::sys::.*::os::(getenv|env)"), "process environment"),
+    (re.compile(r"^std::fs::|^std::net::|^std::process::|^std::os::"), "filesystem / network / process"),
+    (re.compile(r"getrandom|^rand::|RandomState::new$|hashmap_random_keys"), "randomness / hash seeds"),
+    (re.compile(r"^std::thread::"), "threads"),
+    (re.compile(r"^std::io::stdio::|^std::io::(stdin|stdout|stderr)$"), "standard streams"),
+]
+PANIC_MACHINERY = re.compile(r"^(core|std)::(panicking|panic|rt)::|::begin_panic|option::(expect|unwrap)_failed|result::unwrap_failed|"
+                             r"alloc::alloc::handle_alloc_error|raw_vec::capacity_overflow|slice::index::|str::slice_error")
+
+
+def ambient_reach(f, entries):
+    """-> (instances visited, [(source path, family, chain of callers up to the first crate-local function)])"""
+    m = f.mono
+    nodes = m["nodes"]
+    adj = {}
+    for a, b, k in m["edges"]:
+        if k != "drop_unwind":
+            adj.setdefault(a, []).append(b)
+    todo = [i for i, nd in enumerate(nodes) if nd["path"] in entries]
+    parent = {}
+    seen = set()
+    while todo:
+        x = todo.pop()
+        if x in seen:
+            continue
+        seen.add(x)
+        if PANIC_MACHINERY.search(nodes[x]["path"]):
+            continue     # the panic hook reads RUST_BACKTRACE; panics themselves are C01's subject
+        for y in adj.get(x, []):
+            if y not in seen:
+                parent.setdefault(y, x)
+                todo.append(y)
+    hits = {}
+    for i in seen:
+        p = nodes[i]["path"]
+        for rx, fam in AMBIENT_SOURCES:
+            if rx.search(p):
+                chain = []
+                x = i
+                while x in parent and len(chain) < 40:
+                    x = parent[x]
+                    chain.append(nodes[x]["path"])
+                    if nodes[x]["local"]:
+                        break
+                local = chain[-1] if chain and nodes[x]["local"] else "?"
+                key = (p, local)
+                if key not in hits:
+                    hits[key] = (p, fam, local, chain[:6])
+                break
+    return len(seen), sorted(hits.values())
+
+
 def run(res, f, tier):
     obligations = discharged = 0
 
@@ -118,6 +175,16 @@ def run(res, f, tier):
     for p, s, why in deny_hits:
         ob(False, "C12|ambient|%s|%s#%d" % (p, s["detail"], s.get("ord", 0)), "%s reached from evaluation: %s in %s at %s" % (why, s["detail"], p, s["span"]))
     ob(True, "C12|ambient|none", "")
+    visited, amb = ambient_reach(f, set(entries))
+    if visited < 1000:
+        raise Inconclusive("the instance graph reachable from evaluation has only %d nodes" % visited)
+    by_local = {}
+    for p, fam, local, chain in amb:
+        by_local.setdefault((fam, local), []).append((p, chain))
+    for (fam, local), xs in sorted(by_local.items()):
+        ob(False, "C12|ambient-reach|%s|%s" % (local, fam), "%s consulted during evaluation: %s reaches %s (through %s)" % (
+            fam, local, ", ".join(sorted(set(x[0] for x in xs))[:4]), " <- ".join(xs[0][1][:4])), {"sources": [x[0] for x in xs][:10]})
+    ob(True, "C12|ambient-reach|none", "")
     # ---- 6. schedule independence: suspension only by awaiting; no hand-written futures
     fut_impls = [i for i in f.impls if i.get("trait") in ("std::future::Future", "std::task::Wake", "futures_core::Stream")]
     for i in fut_impls:
